@@ -102,6 +102,7 @@ fn main() {
         "C12" => dispatch(checks::c12::C12, tier, seed, replay),
         "C13" => dispatch(checks::c13::C13, tier, seed, replay),
         "C18" => dispatch(checks::c18::C18, tier, seed, replay),
+        "C19" => dispatch(checks::c19::C19, tier, seed, replay),
         _ => {
             eprintln!("unknown property id {id}");
             2
